@@ -111,3 +111,118 @@ def aligner_case(draw, min_peaks=1, max_peaks=8, force_params=None):
             peaks.append(far)
     return {"ref": ref, "query": q, "qlen": qlen, "rev": rev, "peaks": peaks,
             "params": force_params if force_params is not None else draw(params())}
+
+
+@st.composite
+def junction_case(draw, force_params=None):
+    """Three or four parallel diagonals 1.2-2.5 kb apart, each seeded by its own peak, with a small maxDistance so that
+    every peak pairs only the labels of its own diagonal: the reference is cut into consecutive blocks (outer blocks 3-6
+    labels, inner blocks 1-3), block j lies on diagonal j, and labels next to a block boundary are also given a partner
+    on the neighbouring diagonal.  The candidates are chains of >= 3 segments whose short inner segments share labels
+    with both neighbours - the shape in which a segment is emptied from either side while its neighbours still conflict
+    (added after seeded change C15-3 was missed by ladders of peaks around one diagonal)."""
+    m = draw(st.integers(3, 4))
+    d = draw(st.sampled_from([200, 300, 300, 500]))
+    delta = draw(st.integers(d + 300, d + 1600))
+    sign = draw(st.sampled_from([1, -1]))
+    sizes = [draw(st.integers(4, 7))] + [draw(st.integers(2, 4)) for _ in range(m - 2)] + [draw(st.integers(4, 7))]
+    n = sum(sizes)
+    tight = draw(st.integers(0, 3)) > 0
+    ref = [draw(st.integers(20000, 60000))]
+    block_of = []
+    for j, sz in enumerate(sizes):
+        block_of += [j] * sz
+    for i in range(1, n):
+        inner = 0 < block_of[i] < m - 1 or 0 < block_of[i - 1] < m - 1
+        # outer labels are further apart than the outermost diagonals (no accidental partners on a foreign diagonal)
+        wide = (m - 1) * delta + 2 * d + 100
+        gap = draw(st.integers(500, 1500)) if (tight and inner) else draw(st.integers(wide, wide + 3000))
+        ref.append(ref[-1] + gap)
+    offs = [sign * j * delta for j in range(m)]          # query = ref - base - off_j on diagonal j
+    q = []
+    for i, r in enumerate(ref):
+        j = block_of[i]
+        jit = draw(st.integers(-d // 4, d // 4))
+        inner_block = 0 < j < m - 1
+        if not inner_block or draw(st.integers(0, 3)) > 0:      # inner labels are sometimes left without a partner
+            q.append(r - offs[j] + jit)
+        # a partner on the neighbouring diagonal for the label right at a block boundary
+        for nb in (j - 1, j + 1):
+            if 0 <= nb < m and (block_of[max(0, i - 1)] == nb or block_of[min(n - 1, i + 1)] == nb):
+                if draw(st.booleans()):
+                    q.append(r - offs[nb] + draw(st.integers(-d // 4, d // 4)))
+    # a few unrelated query labels (unpaired positions inside segments)
+    for _ in range(draw(st.integers(0, 3))):
+        q.append(draw(st.integers(min(q), max(q))))
+    q = sorted(set(int(x) for x in q))
+    lo = q[0]
+    q = [x - lo for x in q]
+    qlen = q[-1] + 1
+    rev = draw(st.booleans())
+    if rev:
+        q = [q[-1] - p for p in q[::-1]]
+    peaks = []
+    for j in draw(st.permutations(range(m))):
+        p = offs[j] + lo + draw(st.sampled_from([0, 0, 49, -50, 99]))
+        if p not in peaks:
+            peaks.append(p)
+    if force_params is not None:
+        prm = dict(force_params)
+    else:
+        prm = draw(params())
+    prm["d"] = d
+    if draw(st.integers(0, 2)) > 0:
+        prm.pop("ms", None)
+        prm.pop("bs", None)
+    return {"ref": ref, "query": q, "qlen": qlen, "rev": rev, "peaks": peaks, "params": prm}
+
+
+def mixed_case(min_peaks=1, max_peaks=8, force_params=None):
+    """ladders of peaks around one diagonal (half), junction cases (a third) and centre-triple cases (a sixth)"""
+    a = aligner_case(min_peaks=min_peaks, max_peaks=max_peaks, force_params=force_params)
+    jc = junction_case(force_params=force_params)
+    return st.one_of(a, a, a, jc, jc, triple_case(force_params=force_params))
+
+
+@st.composite
+def triple_case(draw, force_params=None):
+    """Three diagonals +o, 0, -o seeded by three peaks; the outer segments A (+o) and C (-o) reach into a tight group of
+    three reference labels r1 < rM < r2 from either side, the short middle segment B (diagonal 0) spans that group, so
+    that A/B and B/C overlap by about half of B (the most the chainer lets through) and A and C may still share a label
+    of the group once B has been cut away from either side."""
+    d = draw(st.sampled_from([300, 300, 200, 400]))
+    h1, h2 = draw(st.integers(600, 1400)), draw(st.integers(600, 1400))
+    if draw(st.booleans()):
+        h2 = h1
+    o = draw(st.integers(max(h1, h2) + d + 100, max(h1, h2) + d + 1200))
+    wide = 2 * o + 2 * d + 100
+    r1 = draw(st.integers(30000, 60000))
+    rM, r2 = r1 + h1, r1 + h1 + h2
+    na, nc = draw(st.integers(2, 5)), draw(st.integers(2, 5))
+    refA = [r1 - draw(st.integers(wide, wide + 1500)) * (na - i) for i in range(na)]
+    refC = [r2 + draw(st.integers(wide, wide + 1500)) * (i + 1) for i in range(nc)]
+    ref = sorted(set(refA)) + [r1, rM, r2] + sorted(set(refC))
+    j = lambda: draw(st.integers(-d // 3, d // 3))      # noqa: E731
+    group = [r1, rM, r2]
+    a_end = draw(st.sampled_from([[rM], [rM], [r1, rM], [r1], [rM, r2]]))
+    c_start = draw(st.sampled_from([[rM], [rM], [rM, r2], [r2], [r1, rM]]))
+    b_lab = draw(st.sampled_from([[r1, r2], [r1, r2], [r1, rM, r2], [r1, rM], [rM, r2]]))
+    q = [r - o + j() for r in refA + a_end]
+    q += [r + j() + draw(st.sampled_from([0, 0, -50, 300, -d + 10, d - 10])) for r in b_lab]
+    q += [r + o + j() for r in c_start + refC]
+    q = sorted(set(int(x) for x in q))
+    lo = q[0]
+    q = [x - lo for x in q]
+    qlen = q[-1] + 1
+    rev = draw(st.booleans())
+    if rev:
+        q = [q[-1] - p for p in q[::-1]]
+    # r - q' = off + lo with off = +o for A (query = r - o), 0 for B, -o for C
+    peaks = [o + lo, lo, -o + lo]
+    peaks = [peaks[i] for i in draw(st.permutations(range(3)))]
+    prm = dict(force_params) if force_params is not None else draw(params())
+    prm["d"] = d
+    for k in ("ms", "bs", "sj", "ss"):
+        if draw(st.integers(0, 3)) > 0:
+            prm.pop(k, None)
+    return {"ref": ref, "query": q, "qlen": qlen, "rev": rev, "peaks": peaks, "params": prm}
